@@ -20,15 +20,20 @@ SCENARIOS = {
     "S4": "interleaved, partially consumed iterators on a shared object across two threads",
     "S5": "concurrent first calls on a freshly compiled shared object (empty-matching and ordinary pattern)",
     "S6": "back-references, captures and case-blind matching on one shared object from three threads",
+    "S7": "large character class on one shared object: concurrent first lookups of different members, then re-test (windows without instrumentation points)",
 }
+# Miri preemption rates per scenario (cheap scenarios are run at several rates: which rate
+# exposes a narrow window varies)
+RATES = {"S1": [0.1], "S2": [0.1], "S3": [0.1], "S4": [0.05, 0.5], "S5": [0.05, 0.5], "S6": [0.1],
+         "S7": [0.05, 0.25, 0.5]}
 VIOLATION_MARKS = ["C18-MISMATCH", "Data race detected", "deadlock", "Undefined Behavior"]
 INFRA_MARKS = ["unsupported operation", "could not compile", "error: no such command", "is not installed"]
 
 
-def run(scenario, lo, hi, timeout):
+def run(scenario, lo, hi, timeout, rate=0.1):
     env = dict(os.environ)
     env["CARGO_NET_OFFLINE"] = "true"
-    env["MIRIFLAGS"] = f"-Zmiri-many-seeds={lo}..{hi} -Zmiri-preemption-rate=0.1"
+    env["MIRIFLAGS"] = f"-Zmiri-many-seeds={lo}..{hi} -Zmiri-preemption-rate={rate}"
     env.pop("RUSTFLAGS", None)
     t0 = time.time()
     try:
@@ -55,32 +60,38 @@ def classify(out):
 
 def stage(nseeds):
     base = int(os.environ.get("VERIF_SEED", "20261002")) % 100000
-    summary = {"stage": "run", "engine": "cargo +nightly miri run, -Zmiri-many-seeds, -Zmiri-preemption-rate=0.1",
+    summary = {"stage": "run", "engine": "cargo +nightly miri run, -Zmiri-many-seeds, -Zmiri-preemption-rate per scenario",
                "configuration": "shipped (feature verif-hooks off)", "seed_range": [base, base + nseeds],
                "scenarios": {}, "violations": [], "infrastructure_failures": []}
     os.makedirs("/verif/target", exist_ok=True)
     os.makedirs("/verif/replays", exist_ok=True)
     for sc, desc in SCENARIOS.items():
-        out, rc, timed_out, wall = run(sc, base, base + nseeds, timeout=2400)
-        ok = len(re.findall(rf"scenario {sc} ok", out))
-        failing = [int(x) for x in re.findall(r"FAILING SEED: (\d+)", out)]
-        entry = {"what": desc, "seeds": nseeds, "ok": ok, "failing_seeds": failing, "wall_s": round(wall, 1)}
-        if timed_out:
-            entry["note"] = "timed out"
-            summary["infrastructure_failures"].append(f"{sc}: timed out after {wall:.0f}s ({ok} seeds finished)")
-        elif failing or (rc != 0 and ok < nseeds):
-            kind, mark = classify(out)
-            if kind == "violation" and failing:
-                for seed in failing[:3]:
-                    path = f"/verif/replays/C18-miri-{sc}-{seed}.json"
-                    tail = "\n".join(l for l in out.splitlines() if not l.startswith("warning"))[-3000:]
-                    json.dump({"property": "C18", "engine": "miri", "scenario": sc, "seed": seed,
-                               "kind": mark, "output_tail": tail}, open(path, "w"), indent=1)
-                    summary["violations"].append({"scenario": sc, "seed": seed, "kind": mark, "replay": path})
-            else:
-                tail = out[-1500:]
-                summary["infrastructure_failures"].append(f"{sc}: rc={rc} kind={kind} {mark}: {tail}")
-                entry["note"] = "infrastructure failure; not counted"
+        entry = {"what": desc, "seeds": 0, "ok": 0, "failing_seeds": [], "wall_s": 0.0,
+                 "preemption_rates": RATES.get(sc, [0.1])}
+        for rate in RATES.get(sc, [0.1]):
+            out, rc, timed_out, wall = run(sc, base, base + nseeds, timeout=2400, rate=rate)
+            ok = len(re.findall(rf"scenario {sc} ok", out))
+            failing = [int(x) for x in re.findall(r"FAILING SEED: (\d+)", out)]
+            entry["seeds"] += nseeds
+            entry["ok"] += ok
+            entry["failing_seeds"] += failing
+            entry["wall_s"] = round(entry["wall_s"] + wall, 1)
+            if timed_out:
+                entry["note"] = "timed out"
+                summary["infrastructure_failures"].append(f"{sc}: timed out after {wall:.0f}s ({ok} seeds finished)")
+            elif failing or (rc != 0 and ok < nseeds):
+                kind, mark = classify(out)
+                if kind == "violation" and failing:
+                    for seed in failing[:3]:
+                        path = f"/verif/replays/C18-miri-{sc}-{seed}.json"
+                        tail = "\n".join(l for l in out.splitlines() if not l.startswith("warning"))[-3000:]
+                        json.dump({"property": "C18", "engine": "miri", "scenario": sc, "seed": seed, "rate": rate,
+                                   "kind": mark, "output_tail": tail}, open(path, "w"), indent=1)
+                        summary["violations"].append({"scenario": sc, "seed": seed, "rate": rate, "kind": mark, "replay": path})
+                else:
+                    tail = out[-1500:]
+                    summary["infrastructure_failures"].append(f"{sc}: rc={rc} kind={kind} {mark}: {tail}")
+                    entry["note"] = "infrastructure failure; not counted"
         summary["scenarios"][sc] = entry
     if summary["infrastructure_failures"] and not any(e.get("ok") for e in summary["scenarios"].values()):
         summary["stage"] = "not run (tool failure)"
@@ -93,7 +104,7 @@ def stage(nseeds):
 def replay(path):
     r = json.load(open(path))
     sc, seed = r["scenario"], int(r["seed"])
-    out, rc, timed_out, wall = run(sc, seed, seed + 1, timeout=2400)
+    out, rc, timed_out, wall = run(sc, seed, seed + 1, timeout=2400, rate=r.get("rate", 0.1))
     print("\n".join(l for l in out.splitlines() if not l.startswith("warning"))[-4000:])
     kind, mark = classify(out)
     if "FAILING SEED" in out and kind == "violation":
